@@ -109,6 +109,8 @@ type folder struct {
 	hook func(in ssa.Instruction, val func(ssa.Value) fval) bool
 	// invoke, when set, gives the result of interface method calls (at any depth); ok=false leaves the result unknown.
 	invoke func(call *ssa.Call, args []fval) (fval, bool)
+	// lib, when set, is asked first for the result of a library call (a stand-in for the environment: a flag's value)
+	lib func(fn *ssa.Function, args []fval) (fval, bool)
 	// dyn, when set, stands in for calls of unknown function values (callbacks), at any depth
 	dyn func(call *ssa.Call, args []fval) (fval, bool)
 	// maxSteps overrides the default budget of basic blocks visited
@@ -150,6 +152,11 @@ func (f *folder) foldCallEnv(fn *ssa.Function, args []fval, bind []fval, shared 
 		return top, fmt.Errorf("nil function")
 	}
 	if !f.c.isRepoFunc(fn) {
+		if f.lib != nil {
+			if r, ok := f.lib(fn, args); ok {
+				return r, nil
+			}
+		}
 		return libTransfer(fn, args)
 	}
 	if len(fn.Blocks) == 0 {
@@ -813,6 +820,9 @@ func libTransfer(fn *ssa.Function, args []fval) (fval, error) {
 		// doc: reports whether the Unicode code point r is within s; a negative r is not a code point of any string.
 		if r, ok := argInt(1); ok && r < 0 {
 			return fval{k: constant.MakeBool(false), t: boolT}, nil
+		}
+		if r, ok := argInt(1); ok && len(args) == 2 && args[0].k != nil && args[0].k.Kind() == constant.String && r <= unicode.MaxRune {
+			return fval{k: constant.MakeBool(strings.ContainsRune(constant.StringVal(args[0].k), rune(r))), t: boolT}, nil
 		}
 	case "strings.IndexRune":
 		if r, ok := argInt(1); ok && r < 0 {
